@@ -378,6 +378,10 @@ class SynthDef(metaclass=MetaSynthDef):
         for cn in nn_cns:
             arguments[cn.arg_num] = cn.default_value
 
+        def as_channels(ctrl):
+            # Array arguments support the same operations as other signals.
+            return ugn.ChannelList(ctrl) if isinstance(ctrl, list) else ctrl
+
         def build_ita_controls(ita_cns, ctrl_class, method):
             nonlocal arguments, values, index, ctrl_ugens
             if ita_cns:
@@ -391,7 +395,7 @@ class SynthDef(metaclass=MetaSynthDef):
                 for i, cn in enumerate(ita_cns):
                     cn.index = index
                     index += len(utl.as_list(cn.default_value))
-                    arguments[cn.arg_num] = ctrl_ugens[i]
+                    arguments[cn.arg_num] = as_channels(ctrl_ugens[i])
                     self._set_control_names(ctrl_ugens[i], cn)
 
         build_ita_controls(ir_cns, iou.Control, 'ir')
@@ -417,7 +421,7 @@ class SynthDef(metaclass=MetaSynthDef):
             for i, cn in enumerate(kr_cns):
                 cn.index = index
                 index += len(utl.as_list(cn.default_value))
-                arguments[cn.arg_num] = ctrl_ugens[i]
+                arguments[cn.arg_num] = as_channels(ctrl_ugens[i])
                 self._set_control_names(ctrl_ugens[i], cn)
 
         self._control_names = [
